@@ -442,10 +442,94 @@ fn check_counts(input: &(u8, u16), case: &mut Case) -> Result<(), Fail> {
     Ok(())
 }
 
+/// all four counts at once (0..=3 each) with three variants: exact; the last non-empty section announcing more
+/// entries than are present (the data ends on an entry boundary); OPT records among the additional entries
+fn enum_mixed(_t: Tier, shard: usize, n: usize, f: &mut dyn FnMut((u8, u8, u8, u8, u8)) -> bool) {
+    let mut i = 0;
+    for q in 0..4u8 {
+        for an in 0..4u8 {
+            for ns in 0..4u8 {
+                for ar in 0..4u8 {
+                    for variant in 0..5u8 {
+                        i += 1;
+                        if mine(i, shard, n) && !f((q, an, ns, ar, variant)) {
+                            return;
+                        }
+                    }
+                }
+            }
+        }
+    }
+}
+
+fn check_mixed(input: &(u8, u8, u8, u8, u8), case: &mut Case) -> Result<(), Fail> {
+    let (q, an, ns, ar, variant) = *input;
+    let present = [q as u16, an as u16, ns as u16, ar as u16];
+    let mut header = present;
+    // variants 1, 2: the last non-empty section says one / three more than it holds
+    let overstated = matches!(variant, 1 | 2);
+    if overstated {
+        let Some(k) = (0..4).rev().find(|k| present[*k] > 0) else { return Ok(()) };
+        header[k] += if variant == 1 { 1 } else { 3 };
+    }
+    // variants 3, 4: OPT records in the additional section (3: the first entry; 4: the first and the last)
+    let opts: Vec<usize> = match variant {
+        3 if ar >= 1 => vec![0],
+        4 if ar >= 2 => vec![0, ar as usize - 1],
+        3 | 4 => return Ok(()),
+        _ => vec![],
+    };
+    case.nontrivial = present.iter().filter(|c| **c > 0).count() >= 2 || overstated || !opts.is_empty();
+    case.class(match variant { 0 => "exact", 1 | 2 => "overstated", _ => "with-opt" });
+    let mut m = vec![0x33, 0x44, 0x80, 0x00];
+    for c in header {
+        m.extend_from_slice(&c.to_be_bytes());
+    }
+    for _ in 0..q {
+        m.extend_from_slice(&[0, 0, 1, 0, 1]);
+    }
+    for (sec, count) in [(1usize, an), (2, ns), (3, ar)] {
+        for k in 0..count as usize {
+            if sec == 3 && opts.contains(&k) {
+                // OPT: root owner, TYPE 41, CLASS = udp size 1232, TTL 0, no options
+                m.extend_from_slice(&[0, 0, 41, 0x04, 0xd0, 0, 0, 0, 0, 0, 0]);
+            } else {
+                m.extend_from_slice(&[0, 0, 1, 0, 1, 0, 0, 0, sec as u8, 0, 4, 10, 0, sec as u8, k as u8]);
+            }
+        }
+    }
+    let peek = [
+        lib("questions", || header_buffer::questions(&m))?,
+        lib("answers", || header_buffer::answers(&m))?,
+        lib("name_servers", || header_buffer::name_servers(&m))?,
+        lib("additional_records", || header_buffer::additional_records(&m))?,
+    ];
+    for k in 0..4 {
+        ensure!(peek[k] == Ok(header[k]), "c08:peek-count", "peek count #{} = {:?}, the header holds {}", k, peek[k], header[k]);
+    }
+    let parsed = parse(&m)?;
+    let p = match parsed {
+        Ok(p) => p,
+        Err(e) => {
+            ensure!(overstated, "c08:counts-rejected", "counts {:?} with all entries present: {:?}", header, e);
+            return Ok(());
+        }
+    };
+    // whatever is accepted reports the four counts of its header
+    let got = [p.questions.len() as u16, p.answers.len() as u16, p.name_servers.len() as u16, p.additional_records.len() as u16 + u16::from(p.opt().is_some())];
+    ensure!(got == header, "c08:parse-counts", "the header holds counts {:?} ({:?} entries present), the parsed packet reports {:?} (OPT counted with the additional records)", header, present, got);
+    for compressed in [false, true] {
+        let out = if compressed { lib("build_bytes_vec_compressed", || p.build_bytes_vec_compressed())? } else { lib("build_bytes_vec", || p.build_bytes_vec())? };
+        let out = out.map_err(|e| Fail::new("c08:rebuild-failed", format!("{:?}", e)))?;
+        ensure!(out.len() >= 12 && out[4..12] == m[4..12], "c08:rebuild-counts", "counts {} re-serialised as {} (compressed={})", hex(&m[4..12]), hex(&out[4..out.len().min(12)]), compressed);
+    }
+    Ok(())
+}
+
 pub fn def() -> CheckDef {
     CheckDef {
         id: "C08",
-        rule: "exhaustive enumeration: all 65536 flag words x 5 ids through peek/parse/re-serialise; all 128x128 flag-set pairs x 2 constructors x 128 probes; 5 named opcodes x 12 named rcodes x 128 flag subsets on the build side (all writers incl. writers accepting 1 / 3 bytes per call); 22 entry counts from 0 to 5000 actually present in each of the four sections (parser, peek functions, re-serialisation); all 32768 Z-clear words followed by an OPT record (6 versions x 2 extended rcodes); all 32768 Z-clear received words x 60 (opcode, rcode) pairs assigned after parsing (with flag sets brought to a target by set/remove) and re-serialised. Every case is distinct by construction; non-trivial = word != 0 / both sets non-empty / every build case",
+        rule: "exhaustive enumeration: all 65536 flag words x 5 ids through peek/parse/re-serialise; all 128x128 flag-set pairs x 2 constructors x 128 probes; 5 named opcodes x 12 named rcodes x 128 flag subsets on the build side (all writers incl. writers accepting 1 / 3 bytes per call); 22 entry counts from 0 to 5000 actually present in each of the four sections (parser, peek functions, re-serialisation); all 32768 Z-clear words followed by an OPT record (6 versions x 2 extended rcodes); all 32768 Z-clear received words x 60 (opcode, rcode) pairs assigned after parsing (with flag sets brought to a target by set/remove) and re-serialised. all four counts 0..=3 at once in three variants (exact; the last non-empty section announcing 1 or 3 more entries than the data, which ends on an entry boundary, holds; OPT records as first / first and last additional entry): an accepted message reports exactly the counts of its header (OPT counted with the additional records) and writes them back. Every case is distinct by construction; non-trivial = word != 0 / both sets non-empty / every build case",
         assumptions: vec!["bit layout transcribed from RFC 1035 section 4.1.1 (+ AD/CD from RFC 2535) in checks/c08.rs"],
         sections: vec![
             Box::new(EnumSection {
@@ -463,6 +547,7 @@ pub fn def() -> CheckDef {
                 exhaustive: true,
             }),
             Box::new(EnumSection { name: "counts", rule: "0..5000 entries actually present in each section", enumerate: enum_counts, check: check_counts, exhaustive: true }),
+            Box::new(EnumSection { name: "counts-mixed", rule: "all four counts 0..=3 at once: exact, overstated, with OPT records", enumerate: enum_mixed, check: check_mixed, exhaustive: true }),
             Box::new(EnumSection {
                 name: "words-with-opt",
                 rule: "all Z-clear words x 6 EDNS versions x 2 extended rcodes",
